@@ -34,6 +34,9 @@ type c04PhaseSpec struct {
 	Write [][]string      `json:"write"`
 	Links [][]string      `json:"links"`
 	Outs  json.RawMessage `json:"outs"`
+	// RmTmp0: the job of chunk 0 removes its own temporary directory when it
+	// is done with it (rm -rf "$TMPDIR"); the other chunks leave theirs
+	RmTmp0 bool `json:"rmtmp0,omitempty"`
 	// By names an argument; Variants maps its canonical encoding (hx Enc) to
 	// the behaviour used instead of this one (per-fork behaviour of mapped calls).
 	By       string                  `json:"by"`
@@ -233,6 +236,9 @@ func init() {
 			p := filepath.Join(c.Files, l[0])
 			os.MkdirAll(filepath.Dir(p), 0o755)
 			os.Symlink(c04Subst(l[1], c.Files), p)
+		}
+		if ps.RmTmp0 && strings.HasSuffix(c.ID, ".chnk0") {
+			os.RemoveAll(tmp)
 		}
 		c04LogTree(c.ID, "F", c.Files)
 		c04LogTree(c.ID, "T", tmp)
